@@ -19,7 +19,7 @@ CONSTANTS
   AOpts,     \* subset of {"none","plain","dep","notdep"}
   Defs,      \* subset of {"none","in","out"}      default inside / outside range+options
   Rngs,      \* subset of RangeIds
-  Opts,      \* subset of {"none","bar","list","wide","frac"}
+  Opts,      \* subset of {"none","bar","list","wide","frac"} (Unit = 20: {"none","dec"}, dec = 0.1|0.3)
   FSs,       \* subset of BOOLEAN: the `string` tag option
   Ptrs,      \* subset of BOOLEAN: a is a pointer field
   BIds,      \* second field b: subset of {"nob","req","opt","defrng","mutual","notmutual"}
@@ -28,11 +28,17 @@ CONSTANTS
   Edges,     \* BOOLEAN: add the numbers around the ends of the kind's width (8/16-bit kinds)
   KSps,      \* spellings of the document keys: subset of {"lower", "cap"} ("cap": conf sources only)
   MKs,       \* first key of the map wrapper: subset of {"k", "a", "A", "b", "B", "m", "M"}
+  Unit,      \* unit of the numbers of field a: 2 (halves) or 20 (twentieths: the decimal families)
+  Multi,     \* BOOLEAN: add the value lists of the multimap sources (no value / two values per key)
+  XVs,       \* values of the extra key: subset of {"one", "none", "two"} ("none"/"two": multimap sources)
   Depth,     \* number of vectors per behaviour (1 for generation)
   Emit       \* BOOLEAN: print the vectors
 
 \* ------------------------------------------------------------------ field specs
-RangeIds == {"none", "cc", "oc", "co", "oo", "ge", "lt", "frac", "pt", "big"}
+\* ranges in twentieths whose ends no binary float holds exactly.  Rounding to float32 moves
+\* 0.1 and 0.3 up and 0.7 down: an open end is crossed inwards, a closed one outwards.
+DecRanges == {"d1", "d7", "d1c", "d7c", "d37"}
+RangeIds == {"none", "cc", "oc", "co", "oo", "ge", "lt", "frac", "pt", "big"} \cup DecRanges
 R(lo, hi, li, ri, hlo, hhi) == [lo |-> lo, hi |-> hi, li |-> li, ri |-> ri, hlo |-> hlo, hhi |-> hhi]
 RangeRec(c) ==
   CASE c = "none" -> R(0, 0, FALSE, FALSE, FALSE, FALSE)
@@ -45,15 +51,24 @@ RangeRec(c) ==
     [] c = "frac" -> R(3, 9, FALSE, TRUE, TRUE, TRUE)      \* (1.5:4.5]
     [] c = "pt"   -> R(6, 6, TRUE, TRUE, TRUE, TRUE)       \* [3:3]
     [] c = "big"  -> R(0, 2000, TRUE, TRUE, TRUE, TRUE)    \* [0:1000]: wider than an 8-bit kind
+    \* Unit = 20
+    [] c = "d1"   -> R(2, 20, FALSE, TRUE, TRUE, TRUE)     \* (0.1:1]
+    [] c = "d7"   -> R(0, 14, TRUE, FALSE, TRUE, TRUE)     \* [0:0.7)
+    [] c = "d1c"  -> R(0, 2, TRUE, TRUE, TRUE, TRUE)       \* [0:0.1]
+    [] c = "d7c"  -> R(14, 20, TRUE, TRUE, TRUE, TRUE)     \* [0.7:1]
+    [] c = "d37"  -> R(6, 14, FALSE, FALSE, TRUE, TRUE)    \* (0.3:0.7)
 
-Fld(nm, k, ptr, opt, dep, defc, rngc, optc, fs) ==
+FldU(u, nm, k, ptr, opt, dep, defc, rngc, optc, fs) ==
   LET num == k \in NumericKinds
       rg  == RangeRec(rngc)
-  IN [nm |-> nm, k |-> k, ptr |-> ptr, opt |-> opt, dep |-> dep,
+  IN [nm |-> nm, k |-> k, u |-> u, ptr |-> ptr, opt |-> opt, dep |-> dep,
       hd |-> defc # "none",
       dn |-> IF defc = "none" THEN 0 ELSE IF k = "bool" THEN 1
              ELSE IF k \in ListKinds THEN 2
-             ELSE IF ~num THEN 0 ELSE IF defc = "in" THEN 6 ELSE 14,
+             ELSE IF ~num THEN 0
+             ELSE IF u = 2 THEN (IF defc = "in" THEN 6 ELSE 14)       \* 3 / 7
+             ELSE IF k \in IntKinds THEN (IF defc = "in" THEN u ELSE 2 * u)   \* 1 / 2 (a default the kind can hold)
+             ELSE (IF defc = "in" THEN 10 ELSE 40),                  \* 0.5 / 2
       ds |-> IF defc = "none" THEN ""
              ELSE IF k = "string" THEN (IF defc = "in" THEN "x" ELSE "w")
              ELSE IF k = "strs" THEN "p,q" ELSE IF k = "ints" THEN "1,2" ELSE "",
@@ -62,10 +77,11 @@ Fld(nm, k, ptr, opt, dep, defc, rngc, optc, fs) ==
       ho |-> optc # "none",
       on |-> IF ~num \/ optc = "none" THEN <<>>
              ELSE IF optc = "wide" THEN <<2, 6, 12>>
-             ELSE IF optc = "frac" THEN <<3, 6>> ELSE <<2, 6>>,
+             ELSE IF optc = "frac" THEN <<3, 6>> ELSE <<2, 6>>,     \* "dec" (Unit = 20): 0.1|0.3
       os |-> IF k = "string" /\ optc # "none" THEN <<"x", "y">> ELSE <<>>,
       osyn |-> IF optc = "list" THEN "list" ELSE "bar",
       fs |-> fs]
+Fld(nm, k, ptr, opt, dep, defc, rngc, optc, fs) == FldU(2, nm, k, ptr, opt, dep, defc, rngc, optc, fs)
 
 BField(id) ==
   CASE id = "req"       -> Fld("b", "string", FALSE, "none", "", "none", "none", "none", FALSE)
@@ -78,7 +94,10 @@ BField(id) ==
 Nullable(src) == src \in {"json", "yaml", "conf", "confyaml", "body", "map"}
 Nulls(src) == IF Nullable(src) THEN {VNull} ELSE {}
 
-NumProbe(k) == IF k \in FloatKinds THEN {0, 1, 2, 3, 6, 9, 10, 11, 12} ELSE {0, 2, 3, 6, 10, 12}
+NumProbe(k) ==
+  IF Unit = 2 THEN (IF k \in FloatKinds THEN {0, 1, 2, 3, 6, 9, 10, 11, 12} ELSE {0, 2, 3, 6, 10, 12})
+  \* twentieths: 0, 0.05, 0.1, 0.15, 0.25, 0.3, 0.5, 0.65, 0.7, 0.75, 1, 1.05, 2
+  ELSE (IF k \in FloatKinds THEN {0, 1, 2, 3, 5, 6, 10, 13, 14, 15, 20, 21, 40} ELSE {0, 2, 20, 40})
 
 \* the ends of the kind's width, one step outside them, and numbers further out that still
 \* fit 32 bits (one of them a multiple of the kind's modulus: it would wrap around to 0)
@@ -87,9 +106,22 @@ EdgeProbe(k) ==
   THEN {MinH(k) - 2, MinH(k), MaxH(k), MaxH(k) + 2, MaxH(k) + 90, 2 * MaxH(k) + 4, 4 * MaxH(k)}
   ELSE IF HasMin(k) THEN {0 - 2, 0} ELSE {}
 
+\* value lists of the multimap sources: no value at all, two values
+Lists(f, src) ==
+  IF ~(Multi /\ src \in MultiSources) THEN {}
+  ELSE CASE f.k \in NumericKinds -> {VNoVals} \cup {VNum2(n) : n \in {2, 6, 10}}
+         [] f.k = "string"       -> {VNoVals, VStr2("x"), VStr2("w")}
+         [] OTHER                -> {VNoVals}
+
 InputsFor(f, src) ==
   LET str == src \in StrSources IN
-  CASE f.k \in ListKinds ->
+  CASE f.k \in ListKinds /\ str ->
+         \* a list field of a multimap source takes the list of values of its key.  (A header with
+         \* exactly one value is handed on as a plain text, not as a list of one: not enumerated.)
+         {VAbsent, VNoVals}
+         \cup (IF f.k = "strs" THEN {VList(2, "x,y")} ELSE {VList(2, "3,4")})
+         \cup (IF src \in FormSources THEN (IF f.k = "strs" THEN {VList(1, "x")} ELSE {VList(1, "3")}) ELSE {})
+    [] f.k \in ListKinds ->
          {VAbsent} \cup Nulls(src)
          \cup (IF f.k = "strs" THEN {VList(2, "x,y"), VList(1, "x"), VList(0, "")}
                                ELSE {VList(2, "3,4"), VList(1, "3"), VList(0, "")})
@@ -104,12 +136,15 @@ InputsFor(f, src) ==
          \cup (IF Rich /\ str THEN {VStr("")} ELSE {})
          \cup (IF Edges /\ f.k \in IntKinds
                THEN {IF f.fs /\ ~str THEN VNumStr(n) ELSE VNum(n) : n \in EdgeProbe(f.k)} ELSE {})
+         \cup Lists(f, src)
     [] f.k = "string" ->
          {VAbsent} \cup Nulls(src) \cup {VStr("x"), VStr("z"), VStr("")}
          \cup (IF Rich /\ ~str THEN {VNum(6), VBool(1)} ELSE {})
+         \cup Lists(f, src)
     [] f.k = "bool" ->
          {VAbsent} \cup Nulls(src) \cup {VBool(0), VBool(1)}
          \cup (IF Rich THEN {VStr("x"), VNum(4)} ELSE {})
+         \cup Lists(f, src)
 
 BInputs(id, src) ==
   IF id = "req" THEN {VAbsent, VStr("x")} \cup (IF Rich THEN Nulls(src) ELSE {})
@@ -121,15 +156,24 @@ RngOK(k, r)    == k \notin NumericKinds => r = "none"
 OptOK(k, o)    == /\ k \in {"bool"} \cup ListKinds => o = "none"
                   /\ k = "string" => o \in {"none", "bar", "list"}
 FsOK(k, src, fs) == fs => (k \in NumericKinds /\ src \notin StrSources)
-ListOK(k, src, ptr, defc) == k \in ListKinds => (src \notin StrSources /\ ~ptr /\ defc # "out")
+ListOK(k, src, ptr, defc) ==
+  k \in ListKinds => ((src \notin StrSources \/ (Multi /\ src \in MultiSources)) /\ ~ptr /\ defc # "out")
+\* the decimal families: numbers in twentieths, ranges and options with decimal ends, no typed
+\* Go values (a float32 Go value *is* its rounded number: there is no decimal text to speak of)
+DecOK(src, k, rngc, optc) ==
+  IF Unit = 2 THEN rngc \notin DecRanges /\ optc # "dec"
+  ELSE /\ rngc \in DecRanges \cup {"none"} /\ optc \in {"none", "dec"} /\ src \notin MapSources
+       /\ optc = "dec" => k \in FloatKinds        \* options are values of the field's kind
+XvOK(src, xk, xv) == xv # "one" => (src \in MultiSources /\ xk # <<>>)
+XVal(xv) == CASE xv = "none" -> VNoVals [] xv = "two" -> VStr2("q") [] OTHER -> VStr("q")
 KspOK(src, ksp) == ksp = "cap" => src \in ConfSources
 MkOK(w, mk)     == w # "map" => mk = "k"
 BOK(opt, bid, xk) ==
   /\ "b" \in SeqSet(xk) => bid = "nob"
   /\ "a" \notin SeqSet(xk)
 
-Vec(src, w, wabs, fs, in, xk, ksp, mk) ==
-  [src |-> src, wrap |-> w, wabs |-> wabs, f |-> fs, in |-> in, xk |-> xk, ksp |-> ksp, mk |-> mk]
+Vec(src, w, wabs, fs, in, xk, xv, ksp, mk) ==
+  [src |-> src, wrap |-> w, wabs |-> wabs, f |-> fs, in |-> in, xk |-> xk, xv |-> xv, ksp |-> ksp, mk |-> mk]
 
 AllAbsent(in) == \A i \in DOMAIN in : in[i] = VAbsent
 
@@ -147,18 +191,20 @@ GNextWith(Out(_)) ==
   /\ Cardinality(DOMAIN memo) < Depth
   /\ \E src \in Sources, w \in Wraps, k \in Kinds, ptr \in Ptrs :
      \E opt \in AOpts, defc \in Defs, rngc \in Rngs, optc \in Opts, fs \in FSs :
-     \E bid \in BIds, xkid \in XKs, ksp \in KSps, mk \in MKs :
-       LET xk == IF xkid = "" THEN <<>> ELSE <<xkid>> IN
+     \E bid \in BIds, xkid \in XKs, xvid \in XVs, ksp \in KSps, mk \in MKs :
+       LET xk == IF xkid = "" THEN <<>> ELSE <<xkid>>
+           xv == IF xkid = "" THEN <<>> ELSE <<XVal(xvid)>> IN
        /\ WrapOK(src, w) /\ RngOK(k, rngc) /\ OptOK(k, optc) /\ FsOK(k, src, fs) /\ BOK(opt, bid, xk)
        /\ ListOK(k, src, ptr, defc) /\ KspOK(src, ksp) /\ MkOK(w, mk)
-       /\ LET a  == Fld("a", k, ptr, opt, IF opt \in {"dep", "notdep"} THEN "b" ELSE "", defc, rngc, optc, fs)
+       /\ DecOK(src, k, rngc, optc) /\ XvOK(src, xk, xvid)
+       /\ LET a  == FldU(Unit, "a", k, ptr, opt, IF opt \in {"dep", "notdep"} THEN "b" ELSE "", defc, rngc, optc, fs)
               ty == IF bid = "nob" THEN <<a>> ELSE <<a, BField(bid)>>
           IN \E x \in InputsFor(a, src) :
              \E y \in (IF bid = "nob" THEN {VAbsent} ELSE BInputs(bid, src)) :
                LET in == IF bid = "nob" THEN <<x>> ELSE <<x, y>> IN
                \E wabs \in (IF w \in {"nested", "pnested"} /\ AllAbsent(in) /\ xk = <<>>
                             THEN BOOLEAN ELSE {FALSE}) :
-                 LET v == Vec(src, w, wabs, ty, in, xk, ksp, mk) IN Record(v, v, Out(v))
+                 LET v == Vec(src, w, wabs, ty, in, xk, xv, ksp, mk) IN Record(v, v, Out(v))
 
 GNext == GNextWith(Ideal)
 GSpec == FInit /\ [][GNext]_fvars
